@@ -6,7 +6,7 @@ From Coq Require Import String ZArith List Bool.
 From V Require Import Base.Int Base.IO Spec.Gregorian Model.TimeDelta Model.DateTime Model.C03 Proofs.C06 Proofs.C03.
 From V Require Model.Date Model.Time Proofs.C03Headroom Proofs.C03Zone Proofs.C03Nth.
 From V Require Import Proofs.C03Ops Proofs.C03Adapt.
-From V Require Judge.C03 Proofs.C03Holds Proofs.C03HoldsAr Proofs.C03HoldsNth Proofs.C03HoldsZdays.
+From V Require Judge.C03 Proofs.C03Holds Proofs.C03HoldsAr Proofs.C03HoldsNth Proofs.C03HoldsZdays Proofs.C03Zord.
 Import ListNotations.
 Open Scope Z_scope.
 
@@ -749,3 +749,27 @@ Example C03_holds_zdays_inhabited :
     (run B"ar.opzdays" [VTup [VInt 262142; VInt 365; VInt 86399; VInt 999999999; VInt 7200]; VInt 1; VInt 1]) = JOk.
 Proof. exact Proofs.C03HoldsZdays.zdays_examples. Qed.
 Print Assumptions C03_holds_zdays_inhabited.
+
+(* ---- order follows the distance, whatever the offsets (op ar.zord): Ord::cmp, partial_cmp, == and
+        core::cmp::max of two zone-aware values with (possibly different) offsets are all functions of the sign
+        c of (instant a - instant b): cmp = c, partial_cmp = Some c, a == b iff c = 0, max(a, b) == a iff c >= 0 ---- *)
+Theorem C03_zone_order : forall u o1 v o2, nvalid u -> nvalid v ->
+  let c := cmpZ (inst u) (inst v) in
+  dz_cmp (mk_dtz u o1) (mk_dtz v o2) = c /\
+  zord_obs (mk_dtz u o1) (mk_dtz v o2) = VTup [VInt c; VSome (VInt c); val_of_bool (c =? 0); val_of_bool (0 <=? c)].
+Proof. exact Proofs.C03Zord.zord_spec. Qed.
+Print Assumptions C03_zone_order.
+Theorem C03_holds_zord : forall args,
+  Judge.C03.judge B"ar.zord" args (run B"ar.zord" args) <> JSkip ->
+  Judge.C03.judge B"ar.zord" args (run B"ar.zord" args) = JOk.
+Proof. exact Proofs.C03Zord.h_zord. Qed.
+Print Assumptions C03_holds_zord.
+Example C03_zone_order_example :
+  run B"ar.zord" [VTup [VInt 2024; VInt 60; VInt 32400; VInt 0; VInt 3600]; VTup [VInt 2024; VInt 60; VInt 32400; VInt 0; VInt 0]]
+    = VTup [VInt 0; VSome (VInt 0); VInt 1; VInt 1] /\
+  run B"ar.zord" [VTup [VInt 2024; VInt 60; VInt 32400; VInt 0; VInt 3600]; VTup [VInt 2024; VInt 60; VInt 34200; VInt 0; VInt 0]]
+    = VTup [VInt (-1); VSome (VInt (-1)); VInt 0; VInt 0] /\
+  Judge.C03.judge B"ar.zord" [VTup [VInt 2024; VInt 60; VInt 32400; VInt 0; VInt 3600]; VTup [VInt 2024; VInt 60; VInt 34200; VInt 0; VInt 0]]
+    (VTup [VInt (-1); VSome (VInt (-1)); VInt 0; VInt 0]) = JOk.
+Proof. exact Proofs.C03Zord.zord_examples. Qed.
+Print Assumptions C03_zone_order_example.
